@@ -80,6 +80,11 @@ def rdPair {β γ : Type} (a : Rd β) (b : Rd γ) : Rd (β × γ) := do
 
 def rdUnit : Rd Unit := pure ()
 
+/-- bit width of an observation kind token (`u8` … `isize`); 64 for anything else -/
+def kindBits (k : String) : Nat :=
+  if k == "u8" || k == "i8" then 8 else if k == "u16" || k == "i16" then 16
+  else if k == "u32" || k == "i32" then 32 else 64
+
 -- writers ------------------------------------------------------------------------------------------
 
 def hexDigit (n : Nat) : Char := if n < 10 then Char.ofNat (48 + n) else Char.ofNat (87 + n)
